@@ -108,10 +108,8 @@ var byteLitRe = regexp.MustCompile(`(?s)\[\]byte\((.*)\)\s*$`)
 func runFuzz(prop, target string, d time.Duration, work string) (string, int64, []failure) {
 	ctx, cancel := context.WithTimeout(context.Background(), d+3*time.Minute)
 	defer cancel()
-	cache := filepath.Join(root, ".build", "fuzzcache")
-	_ = os.MkdirAll(cache, 0o755)
 	cmd := exec.CommandContext(ctx, "go", "test", "-tags", "verif", "-run", "^$", "-fuzz", "^"+target+"$",
-		"-fuzztime", d.String(), "-test.fuzzcachedir", cache, "./props")
+		"-fuzztime", d.String(), "./props")
 	cmd.Dir = filepath.Join(root, "harness")
 	cmd.Env = env()
 	out, err := cmd.CombinedOutput()
@@ -128,7 +126,7 @@ func runFuzz(prop, target string, d time.Duration, work string) (string, int64, 
 	}
 	m := fuzzFailRe.FindStringSubmatch(string(out))
 	if m == nil {
-		return note + ", go test -fuzz failed without a crasher: " + tail(string(out), 8), execs, nil
+		return note + ", INFRA: go test -fuzz failed without a crasher: " + tail(string(out), 8), execs, nil
 	}
 	p := filepath.Join(root, "harness", "props", m[1])
 	data, _ := os.ReadFile(p)
